@@ -11,14 +11,20 @@ out = re.sub(r"^go [0-9.]+\s*$", "go 1.26.8", out, count=1, flags=re.M)
 out = re.sub(r"^toolchain .*\n", "", out, flags=re.M)
 out += "\nrequire github.com/crossplane/crossplane v0.0.0\n\nreplace github.com/crossplane/crossplane => %s\n" % REPO
 out += "\nrequire github.com/anishathalye/porcupine v1.3.0\n"
-dst = os.path.join(VERIF, "sim", "go.mod")
+OUTD = os.environ.get("VERIF_OUTDIR", os.path.join(VERIF, "out"))
+os.makedirs(os.path.join(OUTD, "gomod"), exist_ok=True)
+dst = os.path.join(OUTD, "gomod", "go.mod")
 if not os.path.exists(dst) or open(dst).read() != out:
     open(dst, "w").write(out)
+# the module root needs a go.mod; builds use -modfile so its content does not matter
+root = os.path.join(VERIF, "sim", "go.mod")
+if not os.path.exists(root):
+    open(root, "w").write(out)
 # go.sum: repo's plus the extra modules the harness needs
 sumsrc = open(os.path.join(REPO, "go.sum")).read()
 extra = os.path.join(VERIF, "sim", "extra.sum")
 if os.path.exists(extra):
     sumsrc += open(extra).read()
-dsts = os.path.join(VERIF, "sim", "go.sum")
+dsts = os.path.join(OUTD, "gomod", "go.sum")
 if not os.path.exists(dsts) or open(dsts).read() != sumsrc:
     open(dsts, "w").write(sumsrc)
